@@ -31,6 +31,20 @@ def run_bringup(ncp_v, path_kind="serial", second_reset=False, fault=None):
         d, idx, kind = fault
 
         def h2n(data):
+            if d == "rst":
+                # a DATA frame of the OLD session (a callback that was in flight) reaches the host after it has written its
+                # k-th RST and before the RSTACK: frame number 0, or the number the host expected next in the old session
+                if bytes(data).lstrip(b"\x1a").startswith(b"\xc0"):
+                    k = counters["rst"] = counters.get("rst", 0) + 1
+                    if k - 1 == idx:
+                        import ashref
+                        frm = 0 if kind == "stale0" else s.ash._rx_seq
+                        out["fault_hit"] = f"old-session DATA({frm}) between RST and RSTACK"
+                        lay = layout_of(s.ez._protocol.VERSION)
+                        cb = {4: bytes([0x33, 0x90, 0x19, 0x90]), 5: bytes([0x33, 0x90, 0xFF, 0x00, 0x19, 0x90]),
+                              8: bytes([0x33, 0x90, 0x01, 0x19, 0x00, 0x90])}[lay]
+                        s.loop.call_soon(s.line._deliver, ashref.wire(("DATA", frm, 0, s.ash._tx_seq, cb)))
+                return data
             i = counters["h2n"]
             counters["h2n"] += 1
             if d == "h2n" and i == idx:
@@ -155,6 +169,12 @@ class Check(PropertyCheck):
                     for idx in range(0, 4 if tier == "quick" else 8):
                         for kind in ("drop", "corrupt", "dup"):
                             cases.append({"v": v, "path": path, "second": False, "fault": (d, idx, kind)})
+        # a frame of the old session arriving between the host's RST and the RSTACK, at the first and at the later reset
+        for v in ((4, 8, 13) if tier == "quick" else versions):
+            for path in ("serial", "socket-seen", "socket-absent"):
+                for k in (0, 1):
+                    for kind in ("stale0", "stalecur"):
+                        cases.append({"v": v, "path": path, "second": True, "fault": ("rst", k, kind)})
         nf = 200 if tier == "quick" else 2500
         for _ in range(nf):
             v = rng.choice(versions)
@@ -222,6 +242,8 @@ class Check(PropertyCheck):
         # a single lost / damaged / duplicated frame is repaired by ASH (NAK, retransmission, duplicate suppression) and
         # bring-up completes; only the reset handshake itself has no retry: a lost or damaged RST / RSTACK may time out
         recoverable = case["fault"] is not None and (case["fault"][2] == "dup" or obs.get("fault_hit") not in ("RST", "RSTACK"))
+        if case["fault"] is not None and case["fault"][0] == "rst" and "fault_hit" not in obs:
+            recoverable = False    # no such reset request in this scenario: nothing was injected
         for ph in obs["phases"]:
             if ph["done"] != "ok":
                 if case["fault"] is None and case["path"] != "socket-late":
